@@ -26,8 +26,11 @@ from . import hubnative
 
 class Ctx:
     def __init__(self):
+        from .hublib import source_fns
+        want = {"hub_sync"} | source_fns("hub.rs")
+
         def keep(n):
-            return n == "hub_sync" or n.startswith(("hub_sync::", "hub::"))
+            return n in want or n.startswith(tuple(w + "::" for w in want)) or n.startswith("hub::")
         self.mir, self.mir_path, self.dump_s = env.load("bin", keep)
         self.idx = env.impl_index(self.mir)
         self.enums = env.source_enums()
